@@ -83,3 +83,313 @@ Section Bridge.
     - cbn [bind]. exact (k1_is_search None _ 0).
   Qed.
 End Bridge.
+
+(** --- the computed coordinates never decrease with the index --- *)
+Local Open Scope R_scope.
+
+Definition axis_finite (dt off : F64) : Prop :=
+  forall i, (0 <= i <= MAXI)%Z -> finite (fmul (ofZ i) dt) /\ finite (x_sampled dt off i).
+
+Lemma MAXI_pow : MAXI = (2 ^ 53)%Z. Proof. reflexivity. Qed.
+
+Lemma x_sampled_mono dt off : finite dt -> finite off -> 0 <= B2R dt -> axis_finite dt off ->
+  forall i j, (0 <= i <= j)%Z -> (j <= MAXI)%Z -> B2R (x_sampled dt off i) <= B2R (x_sampled dt off j).
+Proof.
+  intros Fdt Foff Hdt Hfin i j Hij HjM.
+  destruct (Hfin i ltac:(lia)) as [Fmi Fxi]. destruct (Hfin j ltac:(lia)) as [Fmj Fxj].
+  destruct (ofZ_exact i) as [Ei Fi]; [rewrite MAXI_pow in *; lia|].
+  destruct (ofZ_exact j) as [Ej Fj]; [rewrite MAXI_pow in *; lia|].
+  unfold x_sampled in *.
+  rewrite (fadd_R _ _ Fmi Foff Fxi), (fadd_R _ _ Fmj Foff Fxj).
+  apply rnd_le. apply Rplus_le_compat_r.
+  rewrite (fmul_R _ _ Fi Fdt Fmi), (fmul_R _ _ Fj Fdt Fmj).
+  apply rnd_le. rewrite Ei, Ej. apply Rmult_le_compat_r; [exact Hdt|]. apply IZR_le. lia.
+Qed.
+
+Lemma below_anti limit dt off strict : finite limit -> finite dt -> finite off -> 0 <= B2R dt -> axis_finite dt off ->
+  forall i j, (0 <= i <= j)%Z -> (j <= MAXI)%Z ->
+  below_of limit off dt strict j = true -> below_of limit off dt strict i = true.
+Proof.
+  intros Fl Fdt Foff Hdt Hfin i j Hij HjM.
+  pose proof (x_sampled_mono dt off Fdt Foff Hdt Hfin i j Hij HjM) as Hm.
+  destruct (Hfin i ltac:(lia)) as [_ Fxi]. destruct (Hfin j ltac:(lia)) as [_ Fxj].
+  unfold below_of, sampleBelow. fold (x_sampled dt off i). fold (x_sampled dt off j).
+  destruct strict.
+  - rewrite !flt_true by assumption. lra.
+  - rewrite !fle_true by assumption. lra.
+Qed.
+
+(** a sufficient, explicit condition for [axis_finite]: moderate interval and offset *)
+Lemma axis_finite_small dt off :
+  finite dt -> finite off -> Rabs (B2R dt) <= bpow radix2 900 -> Rabs (B2R off) <= bpow radix2 1000 ->
+  axis_finite dt off.
+Proof.
+  intros Fdt Foff Hdt Hoff i Hi.
+  destruct (ofZ_exact i) as [Ei Fi]; [rewrite MAXI_pow in *; lia|].
+  assert (Hi53 : Rabs (IZR i) <= bpow radix2 53).
+  { rewrite <- abs_IZR. change (bpow radix2 53) with (IZR (2 ^ 53)). apply IZR_le. rewrite MAXI_pow in Hi. lia. }
+  assert (Hprod : Rabs (B2R (ofZ i) * B2R dt) <= bpow radix2 953).
+  { rewrite Rabs_mult, Ei. change 953%Z with (53 + 900)%Z. rewrite bpow_plus.
+    apply Rmult_le_compat; try apply Rabs_pos; assumption. }
+  assert (Hrp : Rabs (rnd (B2R (ofZ i) * B2R dt)) <= bpow radix2 953).
+  { apply abs_round_le_generic; [apply fexp_valid | apply valid_rnd_round_mode | | exact Hprod].
+    apply generic_format_bpow. unfold fexp, FLT_exp, emin, emax, prec. lia. }
+  assert (Fm : finite (fmul (ofZ i) dt) /\ B2R (fmul (ofZ i) dt) = rnd (B2R (ofZ i) * B2R dt)).
+  { unfold fmul, finite.
+    pose proof (Bmult_correct prec emax Hprec Hmax mode_NE (ofZ i) dt) as H.
+    change (SpecFloat.fexp prec emax) with fexp in H.
+    rewrite Rlt_bool_true in H.
+    - destruct H as (H1 & H2 & _). rewrite H2. unfold finite in Fi, Fdt. rewrite Fi, Fdt. split; [reflexivity|exact H1].
+    - eapply Rle_lt_trans; [exact Hrp|]. apply bpow_lt. unfold emax. lia. }
+  destruct Fm as [Fm Em]. split; [exact Fm|].
+  unfold x_sampled, fadd, finite.
+  pose proof (Bplus_correct prec emax Hprec Hmax mode_NE (fmul (ofZ i) dt) off Fm Foff) as H.
+  change (SpecFloat.fexp prec emax) with fexp in H.
+  rewrite Rlt_bool_true in H.
+  - destruct H as (_ & H2 & _). exact H2.
+  - assert (Hs : Rabs (B2R (fmul (ofZ i) dt) + B2R off) <= bpow radix2 1001).
+    { eapply Rle_trans; [apply Rabs_triang|]. rewrite Em.
+      change 1001%Z with (1000 + 1)%Z. rewrite bpow_plus. change (bpow radix2 1) with 2.
+      assert (bpow radix2 953 <= bpow radix2 1000) by (apply bpow_le; lia). lra. }
+    eapply Rle_lt_trans.
+    + apply abs_round_le_generic; [apply fexp_valid | apply valid_rnd_round_mode | | exact Hs].
+      apply generic_format_bpow. unfold fexp, FLT_exp, emin, emax, prec. lia.
+    + apply bpow_lt. unfold emax. lia.
+Qed.
+
+(** --- specification of [lastSampleBelow] --- *)
+Local Open Scope Z_scope.
+
+Definition last_spec (below : Z -> bool) (r : option Z) : Prop :=
+  match r with
+  | None => below 0 = false
+  | Some i => is_last_below below i
+  end.
+
+Lemma guess_of_floor (y : F64) : exists g, guess_of (ffloor y) = Ok g /\ 0 <= g <= MAXI.
+Proof.
+  unfold guess_of.
+  destruct (fge (ffloor y) (ofME 1 53)) eqn:E1.
+  { exists MAXI. split; [reflexivity|unfold MAXI; lia]. }
+  destruct (fge (ffloor y) (ofZ 1)) eqn:E2.
+  2:{ exists 0. split; [reflexivity|unfold MAXI; lia]. }
+  destruct (ffloor_R y) as [Hv Hf].
+  destruct (is_finite y) eqn:Fy.
+  - (* finite: an integer in [1, 2^53) *)
+    assert (F1 : finite (ofZ 1)) by (apply ofZ_exact; lia).
+    assert (V1 : B2R (ofZ 1) = 1%R) by (apply (ofZ_exact 1); lia).
+    assert (F53 : finite (ofME 1 53)) by reflexivity.
+    assert (V53 : B2R (ofME 1 53) = IZR (2 ^ 53)).
+    { unfold ofME. pose proof (binary_normalize_correct prec emax Hprec Hmax mode_NE 1 53 false) as H.
+      cbv zeta in H.
+      assert (Ef : F2R (Float radix2 1 53) = IZR (2 ^ 53)).
+      { unfold F2R. cbn [Fnum Fexp]. rewrite Rmult_1_l. rewrite <- (IZR_Zpower radix2 53) by lia. reflexivity. }
+      rewrite Ef in H. rewrite (round_int (2 ^ 53)) in H by lia.
+      rewrite Rlt_bool_true in H by (apply int_small_lt_emax; lia). destruct H as (H & _). exact H. }
+    assert (Ffl : finite (ffloor y)) by (unfold finite; congruence).
+    unfold fge in E1, E2.
+    assert (L2 : (1 <= B2R (ffloor y))%R).
+    { apply (fle_true (ofZ 1) (ffloor y) F1 Ffl) in E2. rewrite V1 in E2. exact E2. }
+    assert (L1 : ~ (IZR (2 ^ 53) <= B2R (ffloor y))%R).
+    { intro H. rewrite <- V53 in H. apply (fle_true (ofME 1 53) (ffloor y) F53 Ffl) in H. unfold fle in H. congruence. }
+    rewrite Hv in L1, L2.
+    set (z := Zfloor (B2R y)) in *.
+    assert (1 <= z) by (apply le_IZR; exact L2).
+    assert (z < 2 ^ 53) by (apply Znot_ge_lt; intro G; apply L1; apply IZR_le; lia).
+    exists z. split.
+    + apply toU64_int; [exact Ffl | exact Hv | unfold two64; lia].
+    + unfold MAXI. lia.
+  - (* infinite or NaN: floor is the identity, the comparisons decide *)
+    destruct y as [s|s| |s m e B]; try discriminate Fy.
+    + destruct s; cbn in E1, E2; discriminate.
+    + cbn in E2. discriminate.
+Qed.
+
+Lemma lastSampleBelow_spec limit dt off strict :
+  finite limit -> finite dt -> finite off -> (0 <= B2R dt)%R -> axis_finite dt off ->
+  exists r, lastSampleBelow limit off dt strict = Ok r /\ last_spec (below_of limit off dt strict) r.
+Proof.
+  intros Fl Fdt Foff Hdt Hfin. rewrite lastSampleBelow_bridge. unfold lastSampleBelow_hand.
+  set (below := below_of limit off dt strict).
+  assert (anti := below_anti limit dt off strict Fl Fdt Foff Hdt Hfin). fold below in anti.
+  destruct (below 0) eqn:B0; cbn [negb].
+  2:{ exists None. split; [reflexivity|exact B0]. }
+  destruct (below MAXI) eqn:BM.
+  { exists (Some MAXI). split; [reflexivity|]. unfold last_spec, is_last_below. repeat split; try (unfold MAXI; lia); try assumption. }
+  destruct (guess_of_floor (fdiv (fsub limit off) dt)) as (g & Hg & Hgr).
+  rewrite Hg. cbn [bind].
+  destruct (search_ok below B0 BM g Hgr) as (r & Hr & Hl).
+  exists (Some r). split; assumption.
+Qed.
+
+(** --- from the search result to the matching rules --- *)
+Section Rules.
+  Variables (p off dt : F64).
+  Hypothesis Fp : finite p.
+  Hypothesis Foff : finite off.
+  Hypothesis Fdt : finite dt.
+  Hypothesis Hdt : (0 < B2R dt)%R.
+  Hypothesis Hfin : axis_finite dt off.
+
+  Let X := x_sampled dt off.
+  Let n := Some (MAXI + 1).
+
+  Lemma inax_iff i : inax n i <-> 0 <= i <= MAXI.
+  Proof. unfold inax, inaxb, n. rewrite andb_true_iff, Z.leb_le, Z.ltb_lt. lia. Qed.
+
+  Lemma FX i : 0 <= i <= MAXI -> finite (X i).
+  Proof. intro Hi. apply (Hfin i Hi). Qed.
+
+  Lemma below_le i : below_of p off dt false i = fle (X i) p. Proof. reflexivity. Qed.
+  Lemma below_lt i : below_of p off dt true i = flt (X i) p. Proof. reflexivity. Qed.
+
+  Lemma X_mono i j : 0 <= i <= j -> j <= MAXI -> (B2R (X i) <= B2R (X j))%R.
+  Proof. apply x_sampled_mono; try assumption. lra. Qed.
+
+  Lemma anti_of strict : forall i j, 0 <= i <= j -> j <= MAXI ->
+    below_of p off dt strict j = true -> below_of p off dt strict i = true.
+  Proof. apply below_anti; try assumption. lra. Qed.
+
+  (** last-index rules *)
+  Lemma last_rule strict r :
+    last_spec (below_of p off dt strict) r ->
+    is_last_idx n (below_of p off dt strict) r.
+  Proof.
+    intro H. destruct r as [i|]; cbn [last_spec is_last_idx] in *.
+    - pose proof (is_last_below_char _ (anti_of strict) i H) as C.
+      destruct H as (Hi & Hb & _). split; [apply inax_iff; exact Hi|]. split; [exact Hb|].
+      intros j Hj Pj. apply inax_iff in Hj. apply (C j Hj). exact Pj.
+    - intros j Hj. apply inax_iff in Hj.
+      destruct (below_of p off dt strict j) eqn:E; [|reflexivity].
+      rewrite (anti_of strict 0 j) in H; [discriminate|lia|lia|exact E].
+  Qed.
+
+  (** first-index rules: the complement of a prefix predicate *)
+  Lemma first_rule strict r (Q : Z -> bool) :
+    (forall j, 0 <= j <= MAXI -> Q j = negb (below_of p off dt strict j)) ->
+    last_spec (below_of p off dt strict) r ->
+    is_first_idx n Q
+      (match r with
+       | None => Some 0
+       | Some d => if d <? MAXI then Some (d + 1) else None
+       end).
+  Proof.
+    intros HQ H. destruct r as [d|]; cbn [last_spec] in H.
+    - pose proof (is_last_below_char _ (anti_of strict) d H) as C.
+      destruct H as (Hd & Hb & Hn).
+      destruct (d <? MAXI) eqn:E.
+      + apply Z.ltb_lt in E. cbn [is_first_idx]. split; [apply inax_iff; lia|]. split.
+        * rewrite HQ by lia. rewrite (Hn E). reflexivity.
+        * intros j Hj Pj. apply inax_iff in Hj. rewrite HQ in Pj by exact Hj.
+          destruct (Z_le_gt_dec j d) as [Hle|]; [|lia]. exfalso.
+          assert (below_of p off dt strict j = true) by (apply C; [exact Hj|exact Hle]).
+          rewrite H in Pj. discriminate.
+      + apply Z.ltb_ge in E. cbn [is_first_idx]. intros j Hj. apply inax_iff in Hj.
+        rewrite HQ by exact Hj. assert (below_of p off dt strict j = true) as -> by (apply C; [exact Hj|lia]). reflexivity.
+    - cbn [is_first_idx]. split; [apply inax_iff; unfold MAXI; lia|]. split.
+      + rewrite HQ by (unfold MAXI; lia). rewrite H. reflexivity.
+      + intros j Hj _. apply inax_iff in Hj. lia.
+  Qed.
+
+  Lemma not_le_lt i : 0 <= i <= MAXI -> flt p (X i) = negb (fle (X i) p).
+  Proof.
+    intro Hi. pose proof (FX i Hi) as F.
+    rewrite flt_R, fle_R by assumption.
+    destruct (Rlt_bool_spec (B2R p) (B2R (X i))); destruct (Rle_bool_spec (B2R (X i)) (B2R p)); try reflexivity; lra.
+  Qed.
+  Lemma not_lt_le i : 0 <= i <= MAXI -> fle p (X i) = negb (flt (X i) p).
+  Proof.
+    intro Hi. pose proof (FX i Hi) as F.
+    rewrite flt_R, fle_R by assumption.
+    destruct (Rle_bool_spec (B2R p) (B2R (X i))); destruct (Rlt_bool_spec (B2R (X i)) (B2R p)); try reflexivity; lra.
+  Qed.
+
+  (** Equal: the LessOrEqual index if its coordinate is p *)
+  Lemma equal_rule r :
+    last_spec (below_of p off dt false) r ->
+    match spec_equal X p r with
+    | Some i => inax n i /\ feq (X i) p = true
+    | None => forall j, inax n j -> feq (X j) p = false
+    end.
+  Proof.
+    intro H. destruct r as [d|]; cbn [spec_equal last_spec] in *.
+    - pose proof (is_last_below_char _ (anti_of false) d H) as C.
+      destruct H as (Hd & Hb & Hn).
+      destruct (feq (X d) p) eqn:E.
+      + split; [apply inax_iff; exact Hd|exact E].
+      + intros j Hj. apply inax_iff in Hj.
+        destruct (feq (X j) p) eqn:Ej; [exfalso|reflexivity].
+        pose proof (FX j Hj) as Fj. pose proof (FX d Hd) as Fd.
+        apply (feq_true _ _ Fj Fp) in Ej.
+        assert (Bj : below_of p off dt false j = true).
+        { rewrite below_le. apply (fle_true _ _ Fj Fp). lra. }
+        apply (C j Hj) in Bj.
+        pose proof (X_mono j d ltac:(lia) ltac:(lia)) as M.
+        rewrite below_le in Hb. apply (fle_true _ _ Fd Fp) in Hb.
+        assert (B2R (X d) = B2R p) by lra.
+        apply (feq_true _ _ Fd Fp) in H. congruence.
+    - intros j Hj. apply inax_iff in Hj.
+      destruct (feq (X j) p) eqn:Ej; [exfalso|reflexivity].
+      pose proof (FX j Hj) as Fj. apply (feq_true _ _ Fj Fp) in Ej.
+      assert (Bj : below_of p off dt false j = true).
+      { rewrite below_le. apply (fle_true _ _ Fj Fp). lra. }
+      rewrite (anti_of false 0 j) in H; [discriminate|lia|lia|exact Bj].
+  Qed.
+End Rules.
+
+(** --- the generated [getSampledIndex] meets the specification of every rule --- *)
+Lemma feq_refl_finite (x : F64) : finite x -> feq x x = true.
+Proof. intro F. apply (feq_true x x F F). reflexivity. Qed.
+
+Lemma ofZ0 : B2R (ofZ 0) = 0%R /\ finite (ofZ 0).
+Proof. apply (ofZ_exact 0). lia. Qed.
+
+Theorem sampled_index_spec p off dt m :
+  finite p -> finite off -> finite dt -> (0 < B2R dt)%R -> axis_finite dt off ->
+  exists r, getSampledIndex p off dt m = Ok r /\
+            rule_spec (x_sampled dt off) (Some (MAXI + 1)) m p r.
+Proof.
+  intros Fp Foff Fdt Hdt Hfin.
+  assert (Hdt0 : (0 <= B2R dt)%R) by lra.
+  unfold getSampledIndex.
+  change (fne p p) with (negb (feq p p)). change (fne off off) with (negb (feq off off)).
+  rewrite (feq_refl_finite p Fp), (feq_refl_finite off Foff). cbn [negb orb].
+  assert (G : fgt dt (ofZ 0) = true).
+  { unfold fgt. destruct ofZ0 as [V0 F0]. apply (flt_true _ _ F0 Fdt). rewrite V0. exact Hdt. }
+  rewrite G. cbn [negb].
+  destruct (lastSampleBelow_spec p dt off false Fp Fdt Foff Hdt0 Hfin) as (le & Ele & Sle).
+  destruct (lastSampleBelow_spec p dt off true Fp Fdt Foff Hdt0 Hfin) as (lt & Elt & Slt).
+  destruct m; cbn [PositionMatch_beq orb]; cbv zeta.
+  - (* Equal *)
+    rewrite Ele. cbn [bind].
+    pose proof (equal_rule p off dt Fp Foff Fdt Hdt Hfin le Sle) as E.
+    destruct le as [d|]; cbn [opt_is_some opt_deref bind spec_equal] in *.
+    + fold (x_sampled dt off d). destruct (feq (x_sampled dt off d) p); eexists; (split; [reflexivity|exact E]).
+    + eexists; split; [reflexivity|exact E].
+  - (* Less *)
+    rewrite Elt. cbn [bind]. exists lt. split; [reflexivity|].
+    apply (last_rule p off dt Fp Foff Fdt Hdt Hfin true lt Slt).
+  - (* Greater *)
+    rewrite Ele. cbn [bind].
+    pose proof (first_rule p off dt Fp Foff Fdt Hdt Hfin false le (fun i => flt p (x_sampled dt off i))
+                  (not_le_lt p off dt Fp Hfin) Sle) as R.
+    destruct le as [d|]; cbn [opt_is_some opt_deref bind negb] in *.
+    + destruct (d <? 9007199254740992) eqn:E; change 9007199254740992 with MAXI in E; rewrite E in R.
+      * cbn [bind]. eexists; split; [reflexivity|].
+        rewrite u64_add_small; [exact R|]. destruct Sle as (Hd & _). unfold MAXI, two64 in *. lia.
+      * eexists; split; [reflexivity|exact R].
+    + eexists; split; [reflexivity|exact R].
+  - (* GreaterOrEqual *)
+    rewrite Elt. cbn [bind].
+    pose proof (first_rule p off dt Fp Foff Fdt Hdt Hfin true lt (fun i => fle p (x_sampled dt off i))
+                  (not_lt_le p off dt Fp Hfin) Slt) as R.
+    destruct lt as [d|]; cbn [opt_is_some opt_deref bind negb] in *.
+    + destruct (d <? 9007199254740992) eqn:E; change 9007199254740992 with MAXI in E; rewrite E in R.
+      * cbn [bind]. eexists; split; [reflexivity|].
+        rewrite u64_add_small; [exact R|]. destruct Slt as (Hd & _). unfold MAXI, two64 in *. lia.
+      * eexists; split; [reflexivity|exact R].
+    + eexists; split; [reflexivity|exact R].
+  - (* LessOrEqual *)
+    rewrite Ele. cbn [bind]. exists le. split; [reflexivity|].
+    apply (last_rule p off dt Fp Foff Fdt Hdt Hfin false le Sle).
+Qed.
